@@ -130,7 +130,8 @@ def tlc(spec, cfg, workdir, env=None, workers=1, extra=None, timeout=900, heap="
     jopts = "-Xss1g"
     if deque:
         jopts += " -Dtlc2.tool.queue.IStateQueue=StateDeque"
-    cmd = ["timeout", str(timeout), "java", "-XX:+UseParallelGC", "-Xmx" + heap, "-Xss1g"]
+    jtmp = ensure_dir(os.path.join(workdir, "jtmp"))
+    cmd = ["timeout", str(timeout), "java", "-XX:+UseParallelGC", "-Xmx" + heap, "-Xss1g", "-Djava.io.tmpdir=" + jtmp]
     if deque:
         cmd.append("-Dtlc2.tool.queue.IStateQueue=StateDeque")
     cmd += ["-cp", TLA_CP, "tlc2.TLC", "-workers", str(workers), "-metadir", os.path.join(workdir, "meta"),
@@ -143,6 +144,8 @@ def tlc(spec, cfg, workdir, env=None, workers=1, extra=None, timeout=900, heap="
         e.update(env)
     t0 = time.time()
     rc, out = sh(cmd, env=e, cwd=os.path.dirname(spec))
+    shutil.rmtree(jtmp, ignore_errors=True)
+    shutil.rmtree(os.path.join(workdir, "meta"), ignore_errors=True)
     return rc, out, time.time() - t0
 
 
